@@ -209,7 +209,11 @@ pub(crate) fn translate_block(
                 capstone::x86_insn::X86_INS_PCMPEQD => semantics.pcmpeqd(&mut instruction_graph),
                 capstone::x86_insn::X86_INS_PMOVMSKB => semantics.pmovmskb(&mut instruction_graph),
                 capstone::x86_insn::X86_INS_PMINUB => semantics.pminub(&mut instruction_graph),
-                capstone::x86_insn::X86_INS_POP => semantics.pop(&mut instruction_graph),
+                // pushes/pops of segment registers fall through to the
+                // unsupported-instruction arm
+                capstone::x86_insn::X86_INS_POP if !semantics.has_segment_register_operand()? => {
+                    semantics.pop(&mut instruction_graph)
+                }
                 capstone::x86_insn::X86_INS_POR => semantics.por(&mut instruction_graph),
                 capstone::x86_insn::X86_INS_PREFETCHT0 => semantics.nop(&mut instruction_graph),
                 capstone::x86_insn::X86_INS_PREFETCHT1 => semantics.nop(&mut instruction_graph),
@@ -226,7 +230,9 @@ pub(crate) fn translate_block(
                 capstone::x86_insn::X86_INS_PUNPCKLWD => {
                     semantics.punpcklwd(&mut instruction_graph)
                 }
-                capstone::x86_insn::X86_INS_PUSH => semantics.push(&mut instruction_graph),
+                capstone::x86_insn::X86_INS_PUSH if !semantics.has_segment_register_operand()? => {
+                    semantics.push(&mut instruction_graph)
+                }
                 capstone::x86_insn::X86_INS_PXOR => semantics.pxor(&mut instruction_graph),
                 capstone::x86_insn::X86_INS_RET => semantics.ret(&mut instruction_graph),
                 capstone::x86_insn::X86_INS_ROL => semantics.rol(&mut instruction_graph),
